@@ -590,8 +590,15 @@ fn bind_object_prop(
 )
     -> Result<()>
 {
+    // `_` only discards a property when it's the target of the binding (as in
+    // the shorthand `{_}`); a property that is itself named `_` can still be
+    // bound to another name, as in `{"_": x}`.
     if prop_name.0 == "_" {
-        return Ok(());
+        if let (RawExpr::Var{name}, _) = lhs {
+            if name == "_" {
+                return Ok(());
+            }
+        }
     }
 
     let new_loc_err = |source| {
